@@ -119,7 +119,7 @@ class C28(Prop):
     props_file = "Props/C28.v"
     preamble = ("From Coq Require Import List QArith.\nImport ListNotations.\n"
                 "From PP Require Import Model.C28.\nOpen Scope Q_scope.\n")
-    n_cases = (4500, 60000)
+    n_cases = (2400, 40000)
     design_ref = "DESIGN.md §5 C28"
     level_text = (
         "Coq theorems over an executable Q-transcription of segments_2d/segments_3d "
